@@ -66,13 +66,31 @@ def py_spec(ops, l, r):
     return tot, segs
 
 
+PURITY = []   # (function, what changed) — filled when a weight function modifies the path it is given
+
+
+def snap(path):
+    return ([id(s) for s in path.phasepoints], [list(s.order) for s in path.phasepoints],
+            [s.vel_rev for s in path.phasepoints], path.status, path.generated, path.maxlen, path.path_number,
+            None if path.weights is None else tuple(path.weights))
+
+
+def pure(fn, path, before):
+    after = snap(path)
+    if after != before and len(PURITY) < 20:
+        PURITY.append((fn, [k for k, (a, b) in enumerate(zip(before, after)) if a != b]))
+
+
 def code_weight(tis, path, l, r):
+    before = snap(path)
     try:
         n, seg = tis.wirefence_weight_and_pick(path, float(l), float(r))
         assert seg.length == 0
         return int(n)
     except Exception as e:  # noqa: BLE001
         return err_kind(e)
+    finally:
+        pure("wirefence_weight_and_pick", path, before)
 
 
 def code_pick(tis, path, l, r, xi):
@@ -378,11 +396,13 @@ def run(ctx):
     code_c = []
     for (i0, i1, i2, wf, ops) in cw_cases:
         p = mk(ops, Path, System)
+        before = snap(p)
         try:
             v = tis.compute_weight(p, [float(i0), float(i1), float(i2)], "wf" if wf else "sh")
             code_c.append(str(int(v)) if float(v) == int(v) else repr(v))
         except Exception as e:  # noqa: BLE001
             code_c.append(err_kind(e))
+        pure("compute_weight", p, before)
     if have_model:
         outc = ctx.driver([f"cw {i0} {i1} {i2} {wf} {lst(ops)}" for (i0, i1, i2, wf, ops) in cw_cases])
     for k, (i0, i1, i2, wf, ops) in enumerate(cw_cases):
@@ -423,11 +443,16 @@ def run(ctx):
     for (cap, intfs, mv, ops) in cv_cases:
         p = mk(ops, Path, System)
         moves = ["sh"] + ["wf" if m else "sh" for m in mv]
+        before = snap(p)
+        fintfs = [float(x) for x in intfs]
         try:
-            v = tis.calc_cv_vector(p, [float(x) for x in intfs], moves, cap=None if cap is None else float(cap))
+            v = tis.calc_cv_vector(p, fintfs, moves, cap=None if cap is None else float(cap))
             code_v.append(lst([int(x) if float(x) == int(x) else x for x in v]))
         except Exception as e:  # noqa: BLE001
             code_v.append(err_kind(e))
+        pure("calc_cv_vector", p, before)
+        if fintfs != [float(x) for x in intfs] or moves != ["sh"] + ["wf" if m else "sh" for m in mv]:
+            PURITY.append(("calc_cv_vector", "interfaces/moves argument modified"))
     if have_model:
         outv = ctx.driver([f"cv {'-' if cap is None else cap} {lst(intfs)} {lst(mv)} {lst(ops)}"
                            for (cap, intfs, mv, ops) in cv_cases])
@@ -492,6 +517,11 @@ def run(ctx):
                 ctx.fail("C10:minus-vector-lambda-minus-one", f"[0-] weight {code_m[k]} with λ₋₁={lm1}, max={max(ops)}: expected {want}",
                          {"ops": ops, "lambda_minus_one": lm1, "first_interface": b})
     move_seed_part(ctx, Path, System, tis, have_model)
+    # the weight functions only read the path they are given
+    for fn, what in PURITY:
+        ctx.fail("C10:weight-function-modifies-its-input", f"{fn} changed field(s) {what} of the path/arguments it was given",
+                 {"fn": fn, "changed": what})
+    del PURITY[:]
     for a in [
         "order values are small integers (exact as floats); ξ values are dyadic so float `c/n >= ξ` equals the rational comparison",
         "IEEE rounding of sum_frames / n_frames is not modelled",
